@@ -91,16 +91,7 @@ def run(prop, tier, seed, make_cases, theorem_targets=(), note="", extra_cov=Non
             rp = e.get("replay", {})
             if rp.get("kind") == "history":
                 corpus.append(dict(src=rp["source"], hist=[tuple(o) for o in rp["calls"]], nobs=0, family="corpus:" + e["id"], entry=e))
-        for e in known:
-            rp = e.get("replay", {})
-            if rp.get("kind") == "script":
-                import subprocess
-                pr = subprocess.run([common.PY, "-c", rp["code"]], capture_output=True, text=True, env=common.pyqasm_env())
-                if pr.returncode != 0:
-                    if e["status"] == "known":
-                        chk.known("%s: %s" % (e["id"], e["what"][:100]))
-                    else:
-                        chk.violation("regressed_%s" % e["id"], {"kind": "script", "finding": e, "stderr": pr.stderr[-600:]})
+        common.run_script_replays(chk, known)
         cases = corpus + make_cases(rnd, tier, lambda n, profile=None: programs(rnd, n, profile))
         codes, real, errs = modcorr.evaluate([(c["src"], c["hist"]) for c in cases])
         for f, e in errs:
